@@ -3,6 +3,7 @@
 package proxy
 
 import (
+	"github.com/fabiolb/fabio/metrics"
 	"fmt"
 	"net/http"
 	"net/http/httptest"
@@ -223,6 +224,43 @@ func TestVerifC13Inputs(t *testing.T) {
 				}
 			}
 		}
+	}
+	// the documented http -> https setup: a redirect route for host:80 next to the proxied route of the host
+	r.setTable("route add redir foo.com:80/ https://foo.com$path opts \"redirect=301\"\nroute add app foo.com/ http://" + r.upAddr + "/\n")
+	for _, h := range []string{"foo.com", "foo.com:80", "FOO.com"} {
+		r.script = script{status: 200, chunks: [][]byte{[]byte("app")}}
+		rec, _, hits, err := r.do(rawRequest("GET", "/a?x=1", h, nil, nil, false), "10.9.8.7:4711", nil)
+		if err != nil {
+			panic(err)
+		}
+		L.Case()
+		L.NontrivialKey("host:80 " + h)
+		if rec.Code != 301 || rec.Header().Get("Location") != "https://foo.com/a?x=1" || hits != 0 {
+			L.Violation("redirect-route-of-the-default-port-not-taken-for-a-plain-request", map[string]interface{}{"host": h, "status": rec.Code, "location": rec.Header().Get("Location"), "upstream_hits": hits})
+		}
+	}
+	// with the metrics main.go wires in (prometheus provider, counter labelled by code) a redirect is still a redirect
+	{
+		prov := metrics.NewPromProvider("verif", "c13", []float64{0.1, 1})
+		saved := r.proxy.Stats
+		r.proxy.Stats.RedirectCounter = prov.NewCounter("http.redirect.count", "code")
+		r.setTable("route add redir foo.com/ https://t.example/$path opts \"redirect=302\"\n")
+		for k := 0; k < 2; k++ {
+			var rec *httptest.ResponseRecorder
+			msg, _, pan := ev.Guard(func() {
+				rec, _, _, _ = r.do(rawRequest("GET", "/a", "foo.com", nil, nil, false), "10.9.8.7:4711", nil)
+			})
+			L.Case()
+			L.NontrivialKey(fmt.Sprint("prometheus", k))
+			if pan || rec == nil || rec.Code != 302 {
+				d := map[string]interface{}{"metrics": "prometheus provider, http.redirect.count{code}", "panic": msg}
+				if rec != nil {
+					d["status"] = rec.Code
+				}
+				L.Violation("redirect-fails-with-the-configured-metrics", d)
+			}
+		}
+		r.proxy.Stats = saved
 	}
 	// self redirect is skipped in favour of the next matching host: "own scheme, host and
 	// path" - the query plays no part
